@@ -319,7 +319,7 @@ func genC08Args(t *rapid.T, s vScenario) ([]string, map[string]string) {
 		g = append(g, "--end="+date("gev"))
 	}
 	if rapid.IntRange(0, 3).Draw(t, "md") == 0 {
-		v := []string{"0", "1", "2", "10", "1000", "-1", "100000000", "abc", ""}[rapid.IntRange(0, 8).Draw(t, "mdv")]
+		v := []string{"0", "1", "2", "10", "1000", "-1", "100000000", "abc", "", "4294967296", "4611686018427387904", "9223372036854775807"}[rapid.IntRange(0, 11).Draw(t, "mdv")]
 		if rapid.Bool().Draw(t, "mdenv") {
 			env["HR_MAXDEPTH"] = v
 		} else {
@@ -482,6 +482,6 @@ func init() { vRegister("C08", "c08.random", checkC08) }
 
 func TestVerifC08Random(t *testing.T) {
 	vRapid(t, "C08", "c08.random",
-		"valid books/logs with 0-6 grammar-aware mutations per file (25 kinds: 1030-4200 appended records, degenerate notes and entries, truncated line, dropped value, NaN/Inf/1e400/hex/empty numbers, stray separators, invalid UTF-8, NUL, BOM, CR-only, 70 KiB line, empty file, comments only, entries before any heading, duplicate headings, cycles of length 1/2/6, chains 12/300/2000 deep, 1e308 values, 1000x repeated lines, 500-entry recipes) x every command and sub-command with drawn flag shapes (short/long/= forms, env vs flag, global vs sub-command periods from a dictionary of dates, keywords, natural-language phrases and garbage, --maxdepth 0..1e8, odd --date-format, invalid regexps, --no-database, missing paths, directories, missing arguments, unknown flags); in process (recovered panic = failure, 60 s watchdog) and 1/15 through the real binary (no signal, no runtime trace, same verdict, message on failure); non-trivial = both files non-empty and a command given (distinct by files, arguments and environment)",
+		"valid books/logs with 0-6 grammar-aware mutations per file (25 kinds: 1030-4200 appended records, degenerate notes and entries, truncated line, dropped value, NaN/Inf/1e400/hex/empty numbers, stray separators, invalid UTF-8, NUL, BOM, CR-only, 70 KiB line, empty file, comments only, entries before any heading, duplicate headings, cycles of length 1/2/6, chains 12/300/2000 deep, 1e308 values, 1000x repeated lines, 500-entry recipes) x every command and sub-command with drawn flag shapes (short/long/= forms, env vs flag, global vs sub-command periods from a dictionary of dates, keywords, natural-language phrases and garbage, --maxdepth 0..1e8 and 2^32, 2^62, 2^63-1 (a limit set to switch the limit off), odd --date-format, invalid regexps, --no-database, missing paths, directories, missing arguments, unknown flags); in process (recovered panic = failure, 60 s watchdog) and 1/15 through the real binary (no signal, no runtime trace, same verdict, message on failure); non-trivial = both files non-empty and a command given (distinct by files, arguments and environment)",
 		vBudget(40000, 480000), genC08, checkC08)
 }
